@@ -301,7 +301,9 @@ Section Keep.
     (forall u q, pr (set_query u q) = pr u) -> (forall u q, pr (set_fragment u q) = pr u) ->
     forall m, m_state m = PathSt -> okp (pr (m_url m)) (stepo m).
   Proof.
-    intros HS1 HS2 HS3 Hp Hq Hf m Hst. kstart m Hst. kwalk; kleaf; rewrite ?Hq, ?Hf, ?Hp; congruence.
+    intros HS1 HS2 HS3 Hp Hq Hf m Hst. kstart m Hst. kwalk; kleaf;
+      repeat (rewrite ?Hq, ?Hf, ?Hp; match goal with |- pr (if ?b then _ else _) = _ => destruct b end);
+      rewrite ?Hq, ?Hf, ?Hp; congruence.
   Qed.
 
   Lemma keep_FileHost : S FileHost = true -> (forall u q, pr (set_host u q) = pr u) ->
